@@ -24,6 +24,8 @@ Fixpoint usz (fuel : nat) (t : yty) : N :=
           | YVmValue | YVmTuple => 1
           | YText => 67
           | YBinTree vsz v => 9 + vsz + usz f v
+          | YHashed t' => 1 + usz f t'
+          | YRefRaw t' => usz f t'
           | _ => 0
           end
   end.
@@ -41,6 +43,7 @@ Fixpoint yfits (fuel : nat) (t : yty) : bool :=
       | YHashmap _ _ v => yfits f v
       | YHashmapAug _ _ v e => yfits f v && yfits f e
       | YBinTree _ v => yfits f v
+      | YHashed t' | YRefRaw t' => yfits f t'
       | YNamed _ => false
       | _ => true
       end
@@ -114,6 +117,7 @@ Qed.
 
 Section Main.
 Variable env : list yty.
+Variable hk : xtree -> bool.
 Variable H : N.
 Hypothesis HH : 1 <= H.
 
@@ -139,13 +143,13 @@ Lemma dpost_leaf s st (r : res ys) :
 Proof. intros Hg Hs. apply ypost_lift; assumption. Qed.
 
 Theorem ydec_cost : forall fuel t, yfits fuel t = true ->
-  forall s st, thg (cell_of s) <= H -> dpost (usz fuel t) s st (ydec env fuel t s st).
+  forall s st, thg (cell_of s) <= H -> dpost (usz fuel t) s st (ydec env hk fuel t s st).
 Proof.
   induction fuel as [ | f IH]; intros t Hfit s st Hs; [discriminate|].
   cbn [ydec]. lazy zeta.
   (* the tick and the library check *)
   assert (Hhead : forall u r, dpost u s (tickc st) r ->
-            dpost (1 + u) s st (if is_lib (yk s) && negb (match t with YRawCell => true | _ => false end)
+            dpost (1 + u) s st (if is_lib (yk s) && negb (match t with YRawCell | YAny => true | _ => false end)
                                 then yerr ETlb (tickc st) else r)).
   { intros u r Hr. unfold dpost. rewrite wt_add.
     pose proof (wt_ge 1 H (cell_of s) HH) as H1.
@@ -165,7 +169,7 @@ Proof.
             yfits f t' = true -> ysub s0 s -> ytake_ref s0 = Ok cr ->
             dpost (usz f t') s st0
               (match sub_slice (fst cr) chk with
-               | Some s2 => doy (_, st1) <- ydec env f t' s2 st0; yret (snd cr) st1
+               | Some s2 => doy (_, st1) <- ydec env hk f t' s2 st0; yret (snd cr) st1
                | None => yret (snd cr) st0
                end)).
   { intros t' chk s0 cr st0 Hf Hs0 Hcr.
@@ -195,13 +199,13 @@ Proof.
       + intros a st' Ha. apply (Hk a st' Ha).
     - lia.
     - auto. }
-  assert (Hsubcall : forall t' s0 st0, yfits f t' = true -> ysub s0 s -> dpost (usz f t') s st0 (ydec env f t' s0 st0)).
+  assert (Hsubcall : forall t' s0 st0, yfits f t' = true -> ysub s0 s -> dpost (usz f t') s st0 (ydec env hk f t' s0 st0)).
   { intros t' s0 st0 Hf Hs0. apply (dpost_sub _ s0 s _ _ Hs0).
     apply (IH t' Hf s0 st0). etransitivity; [apply (ysub_thg _ _ Hs0) | exact Hs]. }
   assert (Hthen_ref : forall t' chk (x : bits * ys) st0, yfits f t' = true -> ysub (snd x) s ->
             dpost (usz f t') s st0 (doy (cr, st1) <- ylift (ytake_ref (snd x)) st0;
                                    match sub_slice (fst cr) chk with
-                                   | Some s2 => doy (_, st2) <- ydec env f t' s2 st1; yret (snd cr) st2
+                                   | Some s2 => doy (_, st2) <- ydec env hk f t' s2 st1; yret (snd cr) st2
                                    | None => yret (snd cr) st1
                                    end)).
   { intros t' chk x st0 Hf Hx. unfold dpost.
@@ -259,7 +263,7 @@ Proof.
                 ((fix go (fs : list yty) (s : ys) (st : ct) : yres ys :=
                     match fs with
                     | [] => yret s st
-                    | t1 :: ft => doy (s1, st) <- ydec env f t1 s st; go ft s1 st
+                    | t1 :: ft => doy (s1, st) <- ydec env hk f t1 s st; go ft s1 st
                     end) fs0 s0 st0)).
     { induction fs0 as [ | t1 ft IHf]; intros Hff s0 st0 Hs0.
       - apply ypost_ret. exact Hs0.
@@ -318,7 +322,7 @@ Proof.
   - (* YHashmap *)
     unfold dpost, hm_decode.
     eapply ypost_weaken.
-    + apply (hm_tree_cost (ydec env f t) None n vsz H (usz f t) 0 HH).
+    + apply (hm_tree_cost (ydec env hk f t) None n vsz H (usz f t) 0 HH).
       * intros s0 st0 Hs0. apply (IH t Hfit s0 st0 Hs0).
       * intros e He. discriminate.
       * exact Hs.
@@ -328,7 +332,7 @@ Proof.
     apply andb_prop in Hfit. destruct Hfit as [Hf1 Hf2].
     unfold dpost, hm_decode.
     eapply ypost_weaken.
-    + apply (hm_tree_cost (ydec env f t1) (Some (ydec env f t2)) n vsz H (usz f t1) (usz f t2) HH).
+    + apply (hm_tree_cost (ydec env hk f t1) (Some (ydec env hk f t2)) n vsz H (usz f t1) (usz f t2) HH).
       * intros s0 st0 Hs0. apply (IH t1 Hf1 s0 st0 Hs0).
       * intros e He. inversion He; subst. intros s0 st0 Hs0. apply (IH t2 Hf2 s0 st0 Hs0).
       * exact Hs.
@@ -425,7 +429,7 @@ Proof.
           [apply ypost_chg | | auto].
         -- eapply ypost_weaken.
            ++ eapply ypost_bind with (b2 := 0) (Q := fun s' => ysub s' (mkys k (true :: b') refs)).
-              ** apply (bt_leaves_cost (ydec env f t) H (usz f t)).
+              ** apply (bt_leaves_cost (ydec env hk f t) H (usz f t)).
                  --- intros s0 st0 Hs0. apply (IH t Hfit s0 st0 Hs0).
                  --- exact HFH.
               ** intros last st2 _.
@@ -459,5 +463,14 @@ Proof.
         assert (A2 : 9 * 1 * 1 <= 9 * tsz c * H) by (apply N.mul_le_mono; [apply N.mul_le_mono_l|]; assumption).
         unfold wt in *. rewrite !N.mul_add_distr_r. lia.
       * intros a Ha. exact Ha.
+  - (* YHashed *)
+    unfold dpost. rewrite wt_add.
+    assert (Ht1 : tsz (cell_of s) <= wt 1 H (cell_of s)).
+    { unfold wt. rewrite N.mul_1_l. rewrite <- (N.mul_1_r (tsz (cell_of s))) at 1. apply N.mul_le_mono_l. exact HH. }
+    eapply ypost_weaken with (b := wt (usz f t) H (cell_of s) + tsz (cell_of s)) (P := fun s' => ysub s' s);
+      [apply ypost_chg | lia | auto].
+    apply ypost_if; [apply (IH t Hfit s _ Hs) | apply ypost_err; discriminate].
+  - (* YRefRaw *)
+    apply (Hthen_ref t false (@nil bool, s) (tickc st) Hfit (ysub_refl s)).
 Qed.
 End Main.
